@@ -102,7 +102,13 @@ def one(ctx, drv, i, prof, case):
             if ports.find_need(rep) is not None:
                 ctx.cov['out_of_domain'] += 1
                 continue
-            r = v.validate(copy.deepcopy(case['doc']), update=case.get('update', False), normalize=normalize)
+            try:
+                r = v.validate(copy.deepcopy(case['doc']), update=case.get('update', False), normalize=normalize)
+            except Exception as e:
+                if not (isinstance(rep, dict) and 'raised' in rep):
+                    ctx.port_mismatch(port, jcase, repr(rep)[:200], 'raised ' + type(e).__name__,
+                                      'the implementation raised on a referenced schema, the model did not')
+                continue
             rsig = codec.canon_errs(v._errors, 1)
             if rep == 'fuel' or 'raised' in rep:
                 ctx.port_mismatch(port, jcase, repr(rep)[:200], 'ok', 'model raised / ran out of fuel on a referenced schema')
